@@ -27,7 +27,11 @@ Inductive case :=
      WireInfo EDE, and the OPT WriteMsg left on a message whose own OPT carried [down]; [srvc] is
      the server cookie dnsutil.GenerateServerCookie gives for the writer's client half *)
 | CaseEdns (w : ewriter) (srvc : list N) (ede : option eopt) (down : option (list eopt))
-           (reserve : N) (obs_wire obs_msg : option optrec).
+           (reserve : N) (obs_wire obs_msg : option optrec)
+  (* the octets edns.ResponseWriter.WriteWire put behind the body it was handed (the reply's tail),
+     the header counts it left, and the OPT the library decodes from that reply *)
+| CaseOptBytes (w : ewriter) (srvc : list N) (ede : option (N * list N)) (arcount_before arcount_after : N)
+               (obs_wire : option optrec) (tail : list N).
 
 Fixpoint bytes_eqb (a b : list N) : bool :=
   match a, b with
@@ -110,6 +114,10 @@ Definition check_case (c : case) : bool :=
   | CaseEdns w srvc ede down reserve ow om =>
       optrec_eqb (wire_opt (fun _ => srvc) w ede) ow && optrec_eqb (msg_opt (fun _ => srvc) w down) om
       && (wire_opt_len w =? reserve)
+  | CaseOptBytes w srvc ede ar0 ar1 _ tail =>
+      (* appendWireOPT composed from the translated internal/wire builders, run on an empty body *)
+      if ew_noedns w then (match tail with [] => true | _ => false end) && (ar1 =? ar0)
+      else bytes_eqb (append_wire_opt (fun _ => srvc) w ede []) tail && (ar1 =? ar0 + 1)
   end.
 
 (* the specification, on observations only:
@@ -137,4 +145,10 @@ Definition spec_case (c : case) : bool :=
          the reserve is the encoded length of the record without the EDE *)
       (negb (down_eqb down (tomsg_down ede)) || optrec_sameb ow om)
       && (optrec_len ow =? reserve + (if ew_noedns w then 0 else ede_reserve ede))
+  | CaseOptBytes w _ _ ar0 ar1 ow tail =>
+      (* the tail is the RFC 6891 encoding of the record the library reads back, nothing else *)
+      match ow with
+      | Some r => bytes_eqb tail (encode_opt r) && (ar1 =? ar0 + 1)
+      | None => (match tail with [] => true | _ => false end) && (ar1 =? ar0)
+      end
   end.
